@@ -66,6 +66,15 @@ def render(items):
     return ''.join(text_of(n) for n in items)
 
 
+def _group_layout(a, off, gpath):
+    """annotated argument group at offset off with path gpath (its body is laid out once)"""
+    d = {'n': a, 's': off, 'path': gpath, 'bs': off + 1}
+    d['body'] = layout(a[1], off + 1, gpath + ('b',))
+    d['be'] = d['bs'] + len(render(a[1]))
+    d['e'] = d['be'] + 1
+    return d
+
+
 def layout(items, off=0, path=()):
     """Annotated copy of a forest: list of dicts with exact spans.
     keys: n (node), s, e, path, args (list of annotated groups), body (annotated list),
@@ -88,10 +97,7 @@ def layout(items, off=0, path=()):
             off += 1 + len(n[1])
             d['args'] = []
             for j, a in enumerate(n[2]):
-                ad = layout([a], off, p + ('a',))[0]
-                ad['path'] = p + ('a', j)
-                # re-path children of the argument
-                ad['body'] = layout(a[1], ad['bs'], p + ('a', j, 'b'))
+                ad = _group_layout(a, off, p + ('a', j))
                 d['args'].append(ad)
                 off = ad['e']
             d['hs'] = off      # end of head (name + args)
@@ -105,9 +111,7 @@ def layout(items, off=0, path=()):
             off += b + len(n[1]) + 1
             d['args'] = []
             for j, a in enumerate(n[2]):
-                ad = layout([a], off, p + ('a',))[0]
-                ad['path'] = p + ('a', j)
-                ad['body'] = layout(a[1], ad['bs'], p + ('a', j, 'b'))
+                ad = _group_layout(a, off, p + ('a', j))
                 d['args'].append(ad)
                 off = ad['e']
             d['hs'] = off
